@@ -47,6 +47,12 @@ type EngineCfg struct {
 	Nilstart bool
 	CtxKind  string // "cancel" | "deadline"
 	Variant  int
+	// generated scenarios: everything needed to rebuild the script for a replay
+	GenSeed string // decimal uint64
+	GenMode string
+	OvKey   []int  // run, node, visit, k  (override position, empty: none)
+	OvPhase string
+	OvKind  string // "err" | "cancel"
 }
 
 func parseEngineCfg(m map[string]any) EngineCfg {
@@ -86,6 +92,13 @@ func parseEngineCfg(m map[string]any) EngineCfg {
 		c.CtxKind = "cancel"
 	}
 	c.Variant = asInt(m["variant"])
+	c.GenSeed = asStr(m["genseed"])
+	c.GenMode = asStr(m["genmode"])
+	for _, x := range asList(m["ovkey"]) {
+		c.OvKey = append(c.OvKey, asInt(x))
+	}
+	c.OvPhase = asStr(m["ovphase"])
+	c.OvKind = asStr(m["ovkind"])
 	return c
 }
 
@@ -119,8 +132,13 @@ func (c EngineCfg) toJSON() map[string]any {
 	for _, a := range c.Outs {
 		outs = append(outs, a)
 	}
+	ov := []any{}
+	for _, x := range c.OvKey {
+		ov = append(ov, x)
+	}
 	return map[string]any{"nodes": nodes, "top": c.Top, "conns": conns, "ctx0": ctx0, "runs": c.Runs, "acts": acts,
-		"outs": outs, "cancel": c.Cancel, "nilstart": c.Nilstart, "ctxkind": c.CtxKind, "variant": c.Variant}
+		"outs": outs, "cancel": c.Cancel, "nilstart": c.Nilstart, "ctxkind": c.CtxKind, "variant": c.Variant,
+		"genseed": c.GenSeed, "genmode": c.GenMode, "ovkey": ov, "ovphase": c.OvPhase, "ovkind": c.OvKind}
 }
 
 // concrete Go kinds for an abstract (retry, fb, func) triple
